@@ -315,7 +315,7 @@ func genSmallCmd(out string, seed uint64, thorough bool) error {
 						vals = append(vals, 0)
 					}
 					if thorough {
-						vals = append(vals, b^0x10, b^0x40, b+1, 0xff)
+						vals = append(vals, b^0x10, 0xff)
 					}
 					seen := map[byte]bool{}
 					for _, v := range vals {
